@@ -81,7 +81,7 @@ def kind_of(e: BaseException) -> str:
         return "invalid"
     if " count: " in msg and "invalid" in msg:
         return "badcount"
-    if "invalid relay flag" in msg:
+    if "invalid relay flag" in msg or "invalid announce octet" in msg:
         return "badflag"
     if "invalid checksum" in msg:
         return "badchecksum"
@@ -208,6 +208,16 @@ P2P_CLASSES = {
                          _ser, _len_ser, None),
     "headers.parse": (_p2p("Headers"), lambda o: join_with(";", [r_header(h) for h in o.headers]), _ser, _len_ser, None),
     "version.parse": (_p2p("Version"), _r_version, _ser, _len_ser, None),
+    "sendcmpct.parse": (_p2p("SendCmpct"), lambda o: f"{int(o.announce)}/{o.version}", _ser, _len_ser, None),
+    "getcfilters.parse": (_p2p("GetCFilters"), lambda o: f"{int(o.filter_type)}/{o.start_height}/{hx(o.stop_hash)}", _ser, _len_ser, None),
+    "cfilter.parse": (_p2p("CFilter"), lambda o: f"{int(o.filter_type)}/{hx(o.block_hash)}/{hx(o.filter_bytes)}", _ser, _len_ser, None),
+    "cfheaders.parse": (_p2p("CFHeaders"),
+                        lambda o: f"{int(o.filter_type)}/{hx(o.stop_hash)}/{hx(o.previous_filter_header)}/[{join_with(',', [hx(h) for h in o.filter_hashes])}]",
+                        _ser, _len_ser, None),
+    "getcfcheckpt.parse": (_p2p("GetCFCheckpt"), lambda o: f"{int(o.filter_type)}/{hx(o.stop_hash)}", _ser, _len_ser, None),
+    "cfcheckpt.parse": (_p2p("CFCheckpt"),
+                        lambda o: f"{int(o.filter_type)}/{hx(o.stop_hash)}/[{join_with(',', [hx(h) for h in o.filter_headers])}]",
+                        _ser, _len_ser, None),
 }
 
 
@@ -647,7 +657,25 @@ def p_keyorigin(rng):
     return p
 
 
-GENS = {"ssasig.parse": p_sig64,
+def p_hashes(rng, cap):
+    n = min(_count(rng, [0, 1, 2, 5], cap), 253)
+    p = Parts().add("count", vi(n) if rng.random() < 0.97 else vi(cap + 1))
+    for _ in range(n):
+        p.add("hash", common.rand_bytes(rng, 32))
+    return p
+
+
+def _ft(rng):
+    return Parts().add("int", bytes([rng.choice([0, 0, 1, 255])]))
+
+
+GENS = {"sendcmpct.parse": lambda r: Parts().add("marker", bytes([r.choice([0, 1, 1, 2, 255])])).add("int", r.choice([1, 2, 2**64 - 1]).to_bytes(8, "little")),
+        "getcfilters.parse": lambda r: _ft(r).add("int", g_u32(r).to_bytes(4, "little")).add("hash", common.rand_bytes(r, 32)),
+        "cfilter.parse": lambda r: _ft(r).add("hash", common.rand_bytes(r, 32)).extend(p_varbytes(r)),
+        "cfheaders.parse": lambda r: _ft(r).add("hash", common.rand_bytes(r, 32)).add("hash", common.rand_bytes(r, 32)).extend(p_hashes(r, 2000)),
+        "getcfcheckpt.parse": lambda r: _ft(r).add("hash", common.rand_bytes(r, 32)),
+        "cfcheckpt.parse": lambda r: _ft(r).add("hash", common.rand_bytes(r, 32)).extend(p_hashes(r, 2000)),
+        "ssasig.parse": p_sig64,
         "bmssig.parse": lambda r: Parts().add("int", bytes([r.choice([0, 26, 27, 31, 42, 43, 255])])).extend(p_sig64(r)),
         "keyorigin.parse": p_keyorigin, "msg.parse": p_msg, "ping.parse": lambda r: Parts().add("int", r.getrandbits(r.choice([1, 64])).to_bytes(8, "little")),
         "feefilter.parse": lambda r: Parts().add("int", r.choice([0, 1000, -1, 2**63 - 1, -2**63]).to_bytes(8, "little", signed=True)),
@@ -863,7 +891,8 @@ def run(ctx):
     ctx.stream("varint.parse", lines)
 
     # ---- wire classes: valid objects, mutations, vendored seeds
-    per_class = {"ssasig.parse": 80, "bmssig.parse": 80, "keyorigin.parse": 150, "msg.parse": 400, "ping.parse": 60, "feefilter.parse": 60, "netaddr.parse": 100, "addr.parse": 150,
+    per_class = {"sendcmpct.parse": 60, "getcfilters.parse": 60, "cfilter.parse": 100, "cfheaders.parse": 120,
+                 "getcfcheckpt.parse": 50, "cfcheckpt.parse": 100, "ssasig.parse": 80, "bmssig.parse": 80, "keyorigin.parse": 150, "msg.parse": 400, "ping.parse": 60, "feefilter.parse": 60, "netaddr.parse": 100, "addr.parse": 150,
                  "inventory.parse": 80, "inv.parse": 150, "getheaders.parse": 150, "headers.parse": 150,
                  "version.parse": 250, "xkey.parse": 150, "varbytes.parse": 300, "outpoint.parse": 200, "witness.parse": 400, "txin.parse": 400,
                  "txout.parse": 400, "tx.parse": 1200, "header.parse": 200, "block.parse": 120}
